@@ -96,6 +96,7 @@ type chaos struct {
 	// monitors
 	mon *monitors
 	spares []string
+	swaps  atomic.Int64
 }
 
 func (c *chaos) Stamp() int64 { return c.stamp.Add(1) }
@@ -453,6 +454,7 @@ func (c *chaos) injectFault(i int) {
 		c.spares = append(c.spares[1:], out)
 		c.plan = append(c.plan, fmt.Sprintf("t=%v swap %s->%s", c.r.Now(), out, in))
 		c.r.Count("fault_swap", 1)
+		c.swaps.Add(1)
 		c.cl.SetConfig(cfg)
 	case "mutecoord":
 		// the leader's answers to the coordinator are lost: the coordinator declares it dead and
